@@ -55,6 +55,12 @@ pub struct ClientScript {
     /// close-near-timeout: offset in virtual microseconds around the expected timeout instant
     #[serde(default)]
     pub near_us: i64,
+    /// slow reader: receive window of this client's socket (the server's writes block on it)
+    #[serde(default)]
+    pub window: Option<usize>,
+    /// slow reader: the client starts reading frames only this long after the handshake
+    #[serde(default)]
+    pub read_pause_ms: u64,
 }
 
 #[derive(Serialize, Deserialize, Clone, Debug)]
@@ -62,6 +68,9 @@ pub struct Ext {
     pub at_ms: u64,
     /// None = broadcast, Some(cid) = unicast
     pub to: Option<usize>,
+    /// extra payload bytes (large messages fill a slow reader's window)
+    #[serde(default)]
+    pub size: usize,
 }
 
 #[derive(Serialize, Deserialize, Clone, Debug)]
@@ -130,6 +139,9 @@ fn run_client(cid: usize, sc: ClientScript, server: SocketAddr, out: Arc<Mutex<C
         }
     };
     let req = ReqModel { method: "GET".into(), target: "/ws".into(), version: "HTTP/1.1".into(), headers: vec![("Host".into(), "sim".into()), ("Upgrade".into(), "websocket".into()), ("Connection".into(), "Upgrade".into()), ("Sec-WebSocket-Key".into(), format!("key{}", cid))], body: None }.render();
+    if let Some(w) = sc.window {
+        s.sim_set_window(w.clamp(300, 1 << 20));
+    }
     write_all(&mut s, &req);
     let mut log = RecvLog::new();
     loop {
@@ -156,9 +168,13 @@ fn run_client(cid: usize, sc: ClientScript, server: SocketAddr, out: Arc<Mutex<C
     let mut rd = s.try_clone().expect("clone");
     let wr = s.try_clone().expect("clone");
     let (out2, silent2, stop2, wlock2) = (out.clone(), silent.clone(), stop.clone(), wlock.clone());
+    let read_pause_ms = sc.read_pause_ms.min(1000);
     let reader = humsim::thread::spawn(move || {
         let mut buf = leftover;
         let mut l = RecvLog::new();
+        if read_pause_ms > 0 {
+            humsim::thread::sleep(Duration::from_millis(read_pause_ms));
+        }
         let mut wr = wr;
         let mut partial: Option<Vec<u8>> = None;
         loop {
@@ -311,7 +327,7 @@ impl Prop for C12 {
         }
     }
     fn rule(&self) -> &'static str {
-        "One case = 1..8 reference clients each running a script over {connect at a time, send text/binary messages (possibly fragmented, bursts of several within one poll interval; plain, asking the handler for a unicast reply, asking for a broadcast), ping, sleep} and ending by Close frame, abrupt FIN, going silent (partition, with heartbeat on) or staying connected; an external AsyncSender thread issuing unicasts and broadcasts at scripted virtual times; handler pools of 1..8 threads; poll interval 0..10 ms; heartbeat off or (interval, timeout); linked and unlinked construction; then the shutdown signal. All under one seeded schedule (random / sticky / PCT / round-robin) of the poll loop, the pool, the front App and the clients. Distinct = distinct event-log shape (per client: connect / message count / disconnect, order class) plus configuration; non-trivial = at least two clients or one client with at least two messages, and at least one server-side send."
+        "One case = 1..8 reference clients each running a script over {connect at a time, send text/binary messages (possibly fragmented, bursts of several within one poll interval; plain, asking the handler for a unicast reply, asking for a broadcast), ping, sleep} and ending by Close frame, abrupt FIN, going silent (partition, with heartbeat on) or staying connected; an external AsyncSender thread issuing unicasts and broadcasts (3..60 KB ones when a slow-reading client with a 600..4000-byte receive window is present) at scripted virtual times; handler pools of 1..8 threads; poll interval 0..10 ms; heartbeat off or (interval, timeout); linked and unlinked construction; then the shutdown signal. All under one seeded schedule (random / sticky / PCT / round-robin) of the poll loop, the pool, the front App and the clients. Distinct = distinct event-log shape (per client: connect / message count / disconnect, order class) plus configuration; non-trivial = at least two clients or one client with at least two messages, and at least one server-side send."
     }
     fn assumptions(&self) -> Vec<String> {
         vec![
@@ -324,7 +340,7 @@ impl Prop for C12 {
         ]
     }
     fn expected_counters(&self) -> Vec<&'static str> {
-        vec!["c12.clients", "c12.messages_sent", "c12.fragmented", "c12.bursts", "c12.unicast_replies", "c12.handler_broadcasts", "c12.external_sends", "c12.close_endings", "c12.fin_endings", "c12.silent_endings", "c12.close_near_timeout_endings", "c12.heartbeat_on", "c12.linked", "c12.unlinked", "c12.single_handler_thread", "net.silent_peer"]
+        vec!["c12.clients", "c12.messages_sent", "c12.fragmented", "c12.bursts", "c12.unicast_replies", "c12.handler_broadcasts", "c12.external_sends", "c12.close_endings", "c12.fin_endings", "c12.silent_endings", "c12.close_near_timeout_endings", "c12.heartbeat_on", "c12.linked", "c12.unlinked", "c12.single_handler_thread", "c12.slow_reader", "net.silent_peer"]
     }
     fn real_vs_stub(&self) -> (Vec<&'static str>, Vec<&'static str>) {
         (vec!["AsyncWebsocketApp::run, AsyncStream/AsyncSender, async_websocket_handler + handshake, WebsocketStream::recv_nonblocking/send/ping, ThreadPool, App"], vec!["threads, Mutex/mpsc, sleep, Instant, TCP, the streams HashMap's hasher (humsim)", "clients are harness reference RFC 6455 implementations"])
@@ -359,10 +375,26 @@ impl Prop for C12 {
                 6 if heartbeat.is_some() => "close-near-timeout",
                 _ => "stay",
             };
-            clients.push(ClientScript { start_ms: [0u64, 0, 3, 20, 100][rng.usize_below(5)], steps, ending: ending.into(), near_us: rng.below(24_000) as i64 - 4_000 });
+            clients.push(ClientScript { start_ms: [0u64, 0, 3, 20, 100][rng.usize_below(5)], steps, ending: ending.into(), near_us: rng.below(24_000) as i64 - 4_000, window: None, read_pause_ms: 0 });
         }
         let next = rng.range(0, 3) as usize;
-        let external = (0..next).map(|_| Ext { at_ms: [5u64, 30, 150, 600][rng.usize_below(4)], to: if rng.chance(1, 2) { None } else { Some(rng.usize_below(nclients)) } }).collect();
+        let mut external: Vec<Ext> = (0..next).map(|_| Ext { at_ms: [5u64, 30, 150, 600][rng.usize_below(4)], to: if rng.chance(1, 2) { None } else { Some(rng.usize_below(nclients)) }, size: 0 }).collect();
+        // dimensions added later are drawn from their own stream, so the older ones keep their values:
+        // a slow-reading client and large server-side messages (only without a heartbeat: a poll loop
+        // blocked in a write to a slow reader would let other clients' heartbeats lapse, which is
+        // Humphrey's design and not what this property judges)
+        let mut rng2 = Rng::new(humsim::rng::mix(&[run_seed(seed, "C12", idx), 0xC12_0002]));
+        if heartbeat.is_none() && rng2.chance(1, 4) {
+            let k = rng2.usize_below(nclients);
+            clients[k].window = Some(rng2.range(600, 4000) as usize);
+            clients[k].read_pause_ms = [0u64, 0, 50, 400][rng2.usize_below(4)];
+            if external.is_empty() {
+                external.push(Ext { at_ms: [5u64, 30, 150][rng2.usize_below(3)], to: None, size: 0 });
+            }
+            for e in external.iter_mut() {
+                e.size = [3000usize, 20_000, 60_000][rng2.usize_below(3)];
+            }
+        }
         let mut sim = SimParams::draw(&mut rng, true);
         sim.short_write_permille = 0;
         sim.rx_capacity = None;
@@ -373,7 +405,7 @@ impl Prop for C12 {
 
     fn execute(&self, scenario: &Value) -> RunResult {
         let mut rr = RunResult { evals: 1, ..Default::default() };
-        let scn: Scn = match serde_json::from_value(scenario.clone()) {
+        let mut scn: Scn = match serde_json::from_value(scenario.clone()) {
             Ok(s) => s,
             Err(e) => {
                 rr.harness_error = Some(format!("bad scenario: {}", e));
@@ -383,6 +415,16 @@ impl Prop for C12 {
         if scn.clients.is_empty() {
             return rr;
         }
+        // a slow reader drains a large message one receive window per round trip: keep the round
+        // trip short, so that the transfer (during which the poll loop is blocked in its write, by
+        // Humphrey's design) is over long before the scenario ends
+        let slow = scn.clients.iter().any(|c| c.window.is_some());
+        if slow {
+            scn.sim.latency_max_ns = Some(scn.sim.latency_max_ns.unwrap_or(200_000).min(200_000));
+            scn.sim.default_seg = None;
+            scn.heartbeat = None;
+        }
+        let slow_extra_ms = if slow { 1500 + scn.clients.iter().map(|c| c.read_pause_ms.min(1000)).max().unwrap_or(0) } else { 0 };
         let server: SocketAddr = "10.3.1.1:8090".parse().unwrap();
         let outs: Vec<Arc<Mutex<ClientOut>>> = scn.clients.iter().map(|_| Arc::new(Mutex::new(ClientOut::default()))).collect();
         let hstate = Arc::new(HState { log: Mutex::new(Vec::new()) });
@@ -454,7 +496,7 @@ impl Prop for C12 {
                 for (k, e) in ext.iter().enumerate() {
                     humsim::thread::sleep(Duration::from_millis(e.at_ms.saturating_sub(now)));
                     now = e.at_ms;
-                    let payload = format!("ext{}", k).into_bytes();
+                    let payload = if e.size > 0 { format!("ext{}-{}", k, "y".repeat(e.size.min(70_000))) } else { format!("ext{}", k) }.into_bytes();
                     ext_log.lock().unwrap().push((sim::decision_index(), payload.clone(), e.to));
                     match e.to {
                         None => sender.broadcast(Message::new(payload)),
@@ -475,7 +517,7 @@ impl Prop for C12 {
                 }
             }
             let longest: u64 = scn.clients.iter().map(|c| c.start_ms + c.steps.iter().map(|s| s.ms).sum::<u64>()).max().unwrap_or(0);
-            let settle = longest + 1200 + hb.map(|(i, t)| t + 2 * i).unwrap_or(0);
+            let settle = longest + 1200 + slow_extra_ms + hb.map(|(i, t)| t + 2 * i).unwrap_or(0);
             humsim::thread::sleep(Duration::from_millis(settle));
             let t_sig = sim::now_ns();
             let _ = tx.send(());
@@ -486,6 +528,9 @@ impl Prop for C12 {
         // probes
         rr.count("c12.clients", scn.clients.len() as u64);
         rr.count(if scn.linked { "c12.linked" } else { "c12.unlinked" }, 1);
+        if scn.clients.iter().any(|c| c.window.is_some()) {
+            rr.count("c12.slow_reader", 1);
+        }
         if scn.handler_threads.clamp(1, 8) == 1 {
             rr.count("c12.single_handler_thread", 1);
         }
